@@ -216,6 +216,8 @@ type World struct {
 	Insts  []*Instance
 
 	NodeGates bool
+	// WalletsComeAndGo: the history removes and re-imports wallets (C06, C18)
+	WalletsComeAndGo bool
 	// FatalIsCrash: a logging FATAL (os.Exit in production) is modelled as the
 	// death of the whole process at that instant instead of being recorded only
 	FatalIsCrash bool
